@@ -316,6 +316,30 @@ def loadDddmpU (f : DddmpFile) : Except Err (Mgr × List (Int × Int)) :=
 def loadDddmp (f : DddmpFile) : Except Err Mgr :=
   (loadDddmpU f).map (·.1)
 
+/-! ### the repaired loader (NOT the current code)
+
+`bdd.roots.update(umap[abs(r)] if r > 0 else -umap[abs(r)] for r in roots)`: what `load`
+is meant to do with the root entries.  Kept next to the model of the current code so that
+the theorem about the intended behaviour (`dddmpLoadFixed_roots_of_foaSpec`) is checked,
+and so that the model can follow a repair of `dd/dddmp.py` by switching one name. -/
+
+/-- `umap[abs(r)] if r > 0 else -umap[abs(r)]` -/
+def dddmpRootItem (umap : List (Int × Int)) (ρ : Int) : Except Err Int :=
+  match dictGet umap (ρ.natAbs : Int) with
+  | some r => .ok (if ρ > 0 then r else -r)
+  | none => .error .key
+
+def loadDddmpFixedU (f : DddmpFile) : Except Err (Mgr × List (Int × Int)) :=
+  match loadDddmpU f with
+  | .error e => .error e
+  | .ok (m, umap) =>
+    match m.roots.mapM (dddmpRootItem umap) with
+    | .error e => .error e
+    | .ok rs => .ok ({ m with roots := dedupInts rs }, umap)
+
+def loadDddmpFixed (f : DddmpFile) : Except Err Mgr :=
+  (loadDddmpFixedU f).map (·.1)
+
 /-! ### the one-line encoding used by the driver
 
 fields `key=value`; lists separated by `,`; node lines `u:info:index:then:else`
